@@ -428,6 +428,9 @@ class _Gen:
         for p in names:
             d = lu(r, 1e-3, 1e5)
             self.sys_phases[p] = int(d) + 1 if r.random() < 0.3 else d
+        if len(names) >= 2 and r.random() < 0.12:
+            # a phase of duration exactly 0 (an instantaneous event): still a phase with its own steady state
+            self.sys_phases[r.choice(names)] = r.choice([0, 0.0])
         for n in self.nodes:
             k, a = n["kind"], n["args"]
             if r.random() >= o["phase_conf"]:
